@@ -189,9 +189,23 @@ func c01(r *sim.R) *sim.Violation {
 		if r.T.Chance(1, 10) {
 			nb = 0 // a session that opens the day and closes it again without writing a block
 		}
+		unrepresentable := false
 		for j := 0; j < nb; j++ {
 			b, note := genRawBlock(r.T, ts, big)
 			b.Enc = s.enc.String()
+			// summaries at the top of what the format holds per block (32 bits), and - rarely -
+			// one beyond it, which the writer has to refuse (what happens then is C03's subject)
+			switch r.T.Draw(12) {
+			case 0:
+				b.Traffic.Drops = 1<<32 - 1 - uint64(r.T.Draw(3))
+			case 1:
+				b.Traffic.V4, b.Traffic.V6 = 1<<32-1-uint64(r.T.Draw(3)), 1<<31+uint64(r.T.Draw(1000))
+			case 2:
+				if r.T.Draw(2) == 0 {
+					b.Traffic.Drops = 1<<32 + uint64(r.T.Draw(100000))
+					unrepresentable = true
+				}
+			}
 			s.blocks = append(s.blocks, b)
 			s.notes = append(s.notes, note)
 			ts += int64(1 + r.T.Draw(600))
@@ -202,6 +216,10 @@ func c01(r *sim.R) *sim.Violation {
 		var err error
 		if p := simfs.RunProc(func() { _, err = s.exec() }); p != nil {
 			panic(p)
+		}
+		if err != nil && unrepresentable {
+			r.Probe("unrepresentable_summary_refused")
+			return nil // a refused session may leave column data behind: not this property's history any more
 		}
 		if err != nil {
 			if v := r.Report(&sim.Violation{Clause: "session-rejected", Signature: s.classify(), Detail: fmt.Sprintf("%s: %v", s, err)}); v != nil {
